@@ -219,7 +219,7 @@ FRAGMENTS = ['/*', '*/', 'url(', '@charset ', '@import', '@media', '@namespace',
              'a{b:c}', '@x{', '}', '{', ';', '@\\6d\nedia', '@\\70\npage ', '@x\\41\n', '@\\69\r\nmport', '"\n"', "'\n'", '"x\n"x', "'a\n;b:'a",
              '*|*|*', 'p|*|*', 'a|b|c', '*|*|b', '||', '|*|', '@x \\7d ', '\\7d ', '\\7b ', '@x \\7b y;', '@foo url() bar;', '@import url(', '@namespace url(',
              '@x url( ) ;', 'url()', 'url( )', 'rgb(' + '9' * 308 + '%,1%,1%)', 'hsl(' + '9' * 308 + ',' + '9' * 308 + '%,1%)', '@charset "idna";', '#fff\\a ', 'color:#abcdef\\a;', '#fff\\\n', 'rgb(1,2,3\\a )', 'red\\a ', '@x url({) a b;', '@x {url(})}', 'url({)', 'url(})', '@x "}";', '@x {"}"}', '"{"', '"}"', "'}'", '@charset "hex";', '@charset "idna";',
-             '@charset "undefined";', '@charset "rot13";', '9' * 400 + '.5px', '9' * 5000, 'rgb(' + '9' * 400 + '.5%,1%,1%)', 'calc(', 'calc(calc(1',
+             '@charset "undefined";', '@charset "rot13";', '@charset "css";', "@charset'foo';", '@CHARSET "foo";', '@charset"foo";', '@charset  "foo";', '9' * 400 + '.5px', '9' * 5000, 'rgb(' + '9' * 400 + '.5%,1%,1%)', 'calc(', 'calc(calc(1',
              '1e400', '-' + '9' * 330, 'hsl(' + '9' * 400 + ',1%,1%)', 'rgb(' + '9' * 400 + '%,1%,1%)', 'rgba(1,1,1,' + '9' * 400 + ')',
              '@import "http://[x";', '@import url(//[);', 'url(http://[x)', '@import "http://a:b/";', '@namespace p ""; @namespace p "v"; p|a{}', '﻿', '\xfe\xff', '\xef\xbb\xbf', ':not(', '::', '|', '*|', '~=']
 
